@@ -93,6 +93,7 @@ def sync_harness_gomod():
 
 
 def go_build(pkg, out, tags="verif", race=False, cwd=HARNESS):
+    out = out if os.path.isabs(out) else os.path.join(BIN, out)
     os.makedirs(BIN, exist_ok=True)
     cmd = ["go", "build", "-tags", tags]
     if race:
